@@ -63,11 +63,11 @@ def textx_outcome(mm, s, **kw):
         return ('crash', type(e).__name__ + ': ' + str(e)[:100])
 
 
-def ref_outcome(g, s, cfg):
+def ref_outcome(g, s, cfg, emulate=()):
     try:
-        rp = RefParser(g, s, cfg.get('skipws', True), cfg.get('ws'))
+        rp = RefParser(g, s, cfg.get('skipws', True), cfg.get('ws'), emulate=emulate)
         tree = rp.run()
-        b = Builder(g, cfg.get('auto_init_attributes', True), cfg.get('use_regexp_group', False))
+        b = Builder(g, cfg.get('auto_init_attributes', True), cfg.get('use_regexp_group', False), emulate=emulate)
         return ('ok', dump_ref(b.value(tree))), tree
     except Fail:
         return ('reject',), None
@@ -178,6 +178,7 @@ def make_inputs(g, r, cfg, n, mutate_every=3):
     out = []
     for ii in range(n):
         d = Deriver(g, r, cfg.get('skipws', True), cfg.get('ws'))
+        d.hostile = (ii % 3 == 1)
         try:
             s = d.run()
         except RecursionError:
